@@ -18,7 +18,7 @@ Local Open Scope Z_scope.
 Inductive arg := A1 | A2 | A3 | A4 | A5 | A6.
 
 (** heap object kinds the modelled opcodes distinguish (sexp.h sexp_pointer_tag) *)
-Inductive tag := TPair | TVector | TBytes | TString | TOther.
+Inductive tag := TPair | TVector | TBytes | TString | TIPort | TOPort | TOther.
 
 (** header of a live heap object: tag, the per-type length field (vector length, bytes length,
     string size in bytes), immutable flag (sexp.h:438-452) *)
@@ -29,7 +29,8 @@ Inductive val := Fix (z : Z) | Cur (z : Z) | Chr (z : Z) | Imm | Ptr (o : obj).
 
 (** the type predicates used by guards: sexp_fixnump, sexp_string_cursorp, sexp_charp, sexp_pairp,
     sexp_vectorp, sexp_bytesp, sexp_stringp (sexp.h:760-830) *)
-Inductive pred := PFixnum | PCursor | PChar | PPair | PVector | PBytes | PString.
+Inductive pred := PFixnum | PCursor | PChar | PPair | PVector | PBytes | PString
+  | PIPort | POPort.     (* sexp_iportp / sexp_oportp = sexp_check_tag(x, SEXP_IPORT / SEXP_OPORT) *)
 
 Definition arg_eqb (a b : arg) : bool :=
   match a, b with
@@ -39,14 +40,15 @@ Definition arg_eqb (a b : arg) : bool :=
 
 Definition tag_eqb (a b : tag) : bool :=
   match a, b with
-  | TPair, TPair | TVector, TVector | TBytes, TBytes | TString, TString | TOther, TOther => true
+  | TPair, TPair | TVector, TVector | TBytes, TBytes | TString, TString | TOther, TOther
+  | TIPort, TIPort | TOPort, TOPort => true
   | _, _ => false
   end.
 
 Definition pred_eqb (a b : pred) : bool :=
   match a, b with
   | PFixnum, PFixnum | PCursor, PCursor | PChar, PChar | PPair, PPair
-  | PVector, PVector | PBytes, PBytes | PString, PString => true
+  | PVector, PVector | PBytes, PBytes | PString, PString | PIPort, PIPort | POPort, POPort => true
   | _, _ => false
   end.
 
@@ -54,6 +56,7 @@ Definition pred_eqb (a b : pred) : bool :=
 Definition pred_tag (p : pred) : option tag :=
   match p with
   | PPair => Some TPair | PVector => Some TVector | PBytes => Some TBytes | PString => Some TString
+  | PIPort => Some TIPort | POPort => Some TOPort
   | PFixnum | PCursor | PChar => None
   end.
 
@@ -67,13 +70,15 @@ Definition holds (p : pred) (v : val) : bool :=
   | PVector, Ptr o => tag_eqb (o_tag o) TVector
   | PBytes, Ptr o => tag_eqb (o_tag o) TBytes
   | PString, Ptr o => tag_eqb (o_tag o) TString
+  | PIPort, Ptr o => tag_eqb (o_tag o) TIPort
+  | POPort, Ptr o => tag_eqb (o_tag o) TOPort
   | _, _ => false
   end.
 
 (** * Expressions of the guards *)
 
 (** index expressions: sexp_unbox_fixnum(_ARGk), sexp_unbox_string_cursor(_ARGk) *)
-Inductive iexp := IFix (a : arg) | ICur (a : arg).
+Inductive iexp := IFix (a : arg) | ICur (a : arg) | IChr (a : arg).   (* IChr: sexp_unbox_character(_ARGa) *)
 
 (** bounds: literal, sexp_vector_length(_ARGk), sexp_bytes_length(_ARGk), sexp_string_size(_ARGk) *)
 Inductive lexp := LConst (z : Z) | LVec (a : arg) | LBytes (a : arg) | LStr (a : arg).
@@ -99,6 +104,8 @@ Inductive access :=
   | AField (p : pred) (a : arg)        (* a header field of _ARGa viewed as type p: length, car, cdr *)
   | APtr (a : arg)                     (* the common header of _ARGa: (x)->immutablep *)
   | AAlloc (i : iexp)                  (* allocation of i elements: i must not be negative *)
+  | AUnbox (i : iexp)                  (* an unboxed operand used as a VALUE (result, callee argument): the operand must have
+                                          the immediate type, or the number is junk *)
   | AUnknown.                          (* anything the translator could not classify *)
 
 Inductive item :=
@@ -114,7 +121,7 @@ Definition entry := (Z * list item)%type.
 
 (** * Semantics *)
 
-Inductive junk_kind := KFix | KCur | KLen.
+Inductive junk_kind := KFix | KCur | KLen | KChr.
 
 (** operand values, plus what the unchecked C expressions yield on ill-typed operands: unboxing a
     non-fixnum or reading the "length" of a non-vector gives *some* number; the model leaves it
@@ -128,6 +135,7 @@ Definition eval_i (st : state) (i : iexp) : Z :=
   match i with
   | IFix a => match sarg st a with Fix z => z | v => junk st KFix v end
   | ICur a => match sarg st a with Cur z => z | v => junk st KCur v end
+  | IChr a => match sarg st a with Chr z => z | v => junk st KChr v end
   end.
 
 Definition len_as (st : state) (t : tag) (v : val) : Z :=
@@ -170,6 +178,9 @@ Definition guard_reads (g : guard) : list access :=
   | GCmp _ _ l => lexp_reads l
   end.
 
+Definition iexp_arg (i : iexp) : arg := match i with IFix a | ICur a | IChr a => a end.
+Definition iexp_pred (i : iexp) : pred := match i with IFix _ => PFixnum | ICur _ => PCursor | IChr _ => PChar end.
+
 (** the access requirement: inside a live object of the right type *)
 Definition safeb (st : state) (x : access) : bool :=
   match x with
@@ -191,6 +202,7 @@ Definition safeb (st : state) (x : access) : bool :=
   | AField p a => match pred_tag p with Some _ => holds p (sarg st a) | None => false end
   | APtr a => match sarg st a with Ptr _ => true | _ => false end
   | AAlloc i => 0 <=? eval_i st i
+  | AUnbox i => holds (iexp_pred i) (sarg st (iexp_arg i))
   | AUnknown => false
   end.
 
@@ -221,7 +233,7 @@ Fixpoint first_raise (st : state) (items : list item) (k : Z) : Z :=
 
 Definition iexp_eqb (a b : iexp) : bool :=
   match a, b with
-  | IFix x, IFix y | ICur x, ICur y => arg_eqb x y
+  | IFix x, IFix y | ICur x, ICur y | IChr x, IChr y => arg_eqb x y
   | _, _ => false
   end.
 
@@ -245,7 +257,7 @@ Definition guard_eqb (a b : guard) : bool :=
 
 Definition has (fs : list guard) (g : guard) : bool := existsb (guard_eqb g) fs.
 
-Definition heap_preds : list pred := [PPair; PVector; PBytes; PString].
+Definition heap_preds : list pred := [PPair; PVector; PBytes; PString; PIPort; POPort].
 
 Definition access_ok (fs : list guard) (x : access) : bool :=
   match x with
@@ -257,10 +269,9 @@ Definition access_ok (fs : list guard) (x : access) : bool :=
   | AField p a => match pred_tag p with Some _ => has fs (GIs p a) | None => false end
   | APtr a => existsb (fun p => has fs (GIs p a)) heap_preds
   | AAlloc i => has fs (GCmp i CGe (LConst 0))
+  | AUnbox i => has fs (GIs (iexp_pred i) (iexp_arg i))
   | AUnknown => false
   end.
-
-Definition iexp_arg (i : iexp) : arg := match i with IFix a | ICur a => a end.
 
 Definition lexp_mentions (l : lexp) (a : arg) : bool :=
   match l with LConst _ => false | LVec b | LBytes b | LStr b => arg_eqb a b end.
